@@ -258,6 +258,26 @@ def python_level(T, mod, col, stats):
         except BaseException as e:
             _reject(stats, col, "py_form", e)
 
+    # ---- value snapshot: results taken from a Variable before it is assigned again keep the OLD value ------
+    if mod.HAS_SNAPSHOT:
+        for fn, sub in ((mod.snapshot_py, "py.snap"), (mod.snapshot_ser_py, "py.snap_ser")):
+            try:
+                for a in range(1 << w):
+                    A = BitVector[w](format(a, f"0{w}b"))
+                    for b in range(1 << w):
+                        kept, rt, new = fn(A, BitVector[w](format(b, f"0{w}b")))
+                        k, r, nw = _bv_int(kept), _bv_int(rt), _bv_int(new)
+                        stats["py_snap_evals"] += 1
+                        if nw != b:
+                            stats["py_snap_assign_mismatch"] += 1    # the assignment itself: outside this invariant
+                        elif k != a or r != a:
+                            col.add(sub, f"Variable v = {a:0{w}b}; r = {'Serialized[T](v)' if 'ser' in sub else 'to_bits(v)'}; "
+                                    f"v @= {b:0{w}b}: r is now {k:0{w}b}, from_bits[T](r) serialises to {r:0{w}b}; the value "
+                                    f"at the time of the call was {a:0{w}b}", old=a, new=b, expected=a, observed=k)
+                stats[sub.replace(".", "_") + "_done"] += 1
+            except BaseException as e:
+                _reject(stats, col, sub.replace(".", "_"), e)
+
     # ---- cohdl.Array construction forms (partial default lists, Null, Full, no argument) -----------------
     if mod.AD_NFORMS:
         for qn, Q in (("const", None), ("signal", std.Signal), ("variable", std.Variable)):
@@ -440,6 +460,32 @@ def compile_level(T, mod, r, col, stats, qualifiers, do_ct):
                     if outs.get("cbfull") != full:
                         col.add("cb.full", f"emitted logic: to_bits(T(Full)) = {outs.get('cbfull')}", expected=full,
                                 observed=outs.get("cbfull"))
+    if mod.HAS_SNAPSHOT:
+        for ename, sub in (("SN", "sn"), ("SNS", "sn_ser")):
+            res = compile_entity(getattr(mod, ename))
+            if not res.ok:
+                stats[f"{sub}_rejected"] += 1
+                stats.setdefault("reject_msgs", {}).setdefault(f"{sub}: {res.error[:160]}", col.canon)
+                continue
+            d = compile_design(res.vhdl)
+            if d.findings or d.multi_driven:
+                col.add(f"{sub}.static", f"emitted VHDL has static findings {d.findings[:2]} {d.multi_driven[:2]}")
+                continue
+            sim = d.sim()
+            stats[f"{sub}_compiled"] += 1
+            for a in range(1 << w):
+                for b in range(1 << w):
+                    sim.set_many({"a": a, "b": b})
+                    outs = sim.outputs()
+                    stats["sn_evals"] += 1
+                    if outs.get("o_new") != b:
+                        col.add(f"{sub}.assign", f"emitted logic: v @= {b:0{w}b} then to_bits(v) = {outs.get('o_new')}",
+                                old=a, new=b)
+                    elif outs.get("o_kept") != a or outs.get("o_rt") != a:
+                        col.add(f"{sub}.value", f"emitted logic: Variable v = {a:0{w}b}; r = "
+                                f"{'Serialized[T](v)' if sub == 'sn_ser' else 'to_bits(v)'}; v @= {b:0{w}b}: r = "
+                                f"{outs.get('o_kept')}, from_bits[T](r) -> {outs.get('o_rt')}; the value at the time of the "
+                                f"call was {a:0{w}b}", old=a, new=b, expected=a, observed=outs.get("o_kept"))
     if mod.AD_NFORMS:
         for qn in ("signal", "variable"):
             for f in range(mod.AD_NFORMS):
@@ -552,7 +598,7 @@ def bitfield_write(T, mod, col, stats):
 
 
 # ----------------------------------------------------------------------------------------------
-def check_type(T, qualifiers, do_ct=True, reduced_forms=False):
+def check_type(T, qualifiers, do_ct=True, reduced_forms=False, snapshot=None):
     """complete check of one composition. returns (status, stats, violations)"""
     from collections import defaultdict
 
@@ -561,7 +607,9 @@ def check_type(T, qualifiers, do_ct=True, reduced_forms=False):
     stats = defaultdict(int)
     r = Renderer(T)
     w = L.width(T)
-    src = r.module(qualifiers, ct_patterns_for(w) if do_ct else (), reduced_forms=reduced_forms)
+    if snapshot is None:
+        snapshot = w <= 3
+    src = r.module(qualifiers, ct_patterns_for(w) if do_ct else (), reduced_forms=reduced_forms, with_snapshot=snapshot)
     if T[0] == "ser":
         # helpers to observe / build the wrapped type directly
         r2 = Renderer(T[1])
@@ -643,6 +691,16 @@ def deep_stack():
     return _BIG
 
 
+SNAP_WIDE = ("L0", "L1.rec1", "L1.sarr", "L1.carr")    # strata whose snapshot check goes one bit wider
+
+
+def snapshot_for(stratum, T, thorough):
+    """value-snapshot check over ALL (old, new) pairs: width <= 3 (thorough 4), one bit more for atoms, single field
+    records and arrays of atoms"""
+    lim = (4 if thorough else 3) + (1 if stratum in SNAP_WIDE else 0)
+    return L.width(T) <= lim
+
+
 def work(task):
     return deep_stack()(_work, task)
 
@@ -659,7 +717,7 @@ def _work(task):
         t0 = time.process_time()
         with contextlib.redirect_stdout(buf):   # std exception infos are printed by cohdl
             status, stats, viols = check_type(T, qualifiers_for(stratum, T, thorough), do_ct and ct_for(stratum, T, thorough),
-                                              reduced_forms_for(stratum, T, thorough))
+                                              reduced_forms_for(stratum, T, thorough), snapshot_for(stratum, T, thorough))
         stats["cpu_ms_" + stratum] = int(1000 * (time.process_time() - t0))
         out.append({"stratum": stratum, "T": T, "status": status, "stats": dict(stats), "viols": viols})
     return out
@@ -732,6 +790,10 @@ def main(run: Run):
         run.tool_error(f"vacuous: run-time constructor wrapper compiled for {c.get('cb_compiled', 0)} of {n_rec} records")
     if n_rec and c.get("py_forms_done", 0) < n_rec:
         run.tool_error(f"vacuous: constructor forms exercised {c.get('py_forms_done', 0)} times for {n_rec} records")
+    n_sn = sum(1 for s_, t in fam if t[0] != "ser" and snapshot_for(s_, t, run.thorough))
+    if n_sn and (c.get("sn_compiled", 0) * 10 < n_sn * 8 or c.get("py_snap_done", 0) * 10 < n_sn * 7) and not run.violations:
+        run.tool_error(f"vacuous: value-snapshot wrapper compiled for {c.get('sn_compiled', 0)}, Python level done for "
+                       f"{c.get('py_snap_done', 0)} of {n_sn} compositions")
     from ..gen.c17_render import ad_eligible
     n_ad = sum(1 for _, t in fam if ad_eligible(t))
     if n_ad and (c.get("py_ad_done", 0) < 3 * n_ad or c.get("ad_compiled", 0) < 2 * n_ad) and not run.violations:
@@ -765,6 +827,10 @@ def main(run: Run):
              "no argument, Null, Full) as constant / Signal / Variable: to_bits width == count_bits, iteration length == n, "
              "defaulted elements keep their default and driven elements their slice for every input (per-form compiled "
              "wrappers)"
+             "; value snapshot: to_bits(v) / Serialized[T](v) / from_bits[T](to_bits(v)) taken from a Variable v and used "
+             "after v is assigned again still give the OLD value, for ALL (old, new) pairs, at Python level and in a compiled "
+             f"clock-less process (compositions of width <= {4 if run.thorough else 3}; atoms, single-field records and arrays "
+             "of atoms one bit wider)"
              "; inherited records: low bits == serialised base class; templated records (incl. inheritance between "
              "template declarations, int and type template arguments) == the identical non-templated record",
         evaluations=evals,
